@@ -76,6 +76,11 @@ CHECKS = {
    "Every handshake of the product is sent on its own connection; upgraded iff the reference predicate holds, with Sec-WebSocket-Accept equal to the harness's own SHA-1/base64 digest; refused ones get 4xx and are never upgraded; bytes echo unmodified.",
    "the channel handler is a raw byte echo; Connection values that are not token lists are outside the alphabet; own SHA-1 self-tested on the RFC example",
    "DESIGN.md section 4/C20"),
+ "C09": ("E2-live+E3", "exploration",
+   "bounded-exhaustive value sweep over 4 carriers x 16 scalar types (every Latin-1 code point and plane boundary, thorough: every Unicode scalar value; integer/float extremes; encodings; framings incl. every composition of a body into <=3 chunks; multipart boundary spellings) on a live echo server, plus exhaustive interleaving of send/release/read over 2-3 connections with pipelined gated requests",
+   "Every value of the stated domains is encoded by the client in each carrier and spelling; the handler's typed argument is echoed and must equal the serde_json serialisation of the value byte for byte. Every interleaving of the schedule alphabet is executed on a fresh server; each response must carry only its own request's markers and peer address.",
+   "serde_json as the serialiser of the expected echo; tokio-internal interleavings not enumerated",
+   "DESIGN.md section 4/C09"),
 }
 
 NOT_YET = {
@@ -116,7 +121,7 @@ def main():
       "engines": [
         {"name": "E1", "path": "harness/src/e1.rs + harness/src/bin/e1.rs", "serves_properties": ["C01","C02","C04","C06"], "kind_free_text": "stateless explicit exploration of registration histories on the real ApiDescription/HttpRouter"},
         {"name": "E3", "path": "harness/src/live.rs + harness/src/e3.rs + harness/src/bin/e3.rs", "serves_properties": ["C16","C17","C18"], "kind_free_text": "live event explorer: real HttpServer on loopback, raw TCP client, gated handlers, in-memory slog drain; stateless replay of every history"},
-        {"name": "E2", "path": "harness/src/bin/c03.rs c05.rs ...", "serves_properties": ["C03","C05","C12","C13","C14","C15","C20"], "kind_free_text": "bounded-exhaustive input enumeration against reference functions, on the real public functions"},
+        {"name": "E2", "path": "harness/src/bin/c03.rs c05.rs ...", "serves_properties": ["C03","C05","C09","C12","C13","C14","C15","C20"], "kind_free_text": "bounded-exhaustive input enumeration against reference functions, on the real public functions"},
       ],
       "checks": checks,
       "not_applicable": na,
